@@ -361,15 +361,23 @@ func ruleC08R3(r *Run) {
 		r.Undecided("anchor:runAction$1", ra.Pos(), "anchor unresolved: the deferred closure of runAction")
 		return
 	}
-	var deferArg ssa.Value
+	var captures []string
 	for _, cs := range p.calls(ra) {
 		if d, ok := cs.Instr.(*ssa.Defer); ok {
-			if mc, ok := d.Common().Value.(*ssa.MakeClosure); ok && mc.Fn == ssa.Value(cl) && len(d.Common().Args) == 1 {
-				deferArg = d.Common().Args[0]
+			if mc, ok := d.Common().Value.(*ssa.MakeClosure); ok && mc.Fn == ssa.Value(cl) {
+				for _, a := range d.Common().Args {
+					captures = append(captures, p.expr(a))
+				}
 				// evaluated before the action
 				for _, a := range p.calls(ra) {
 					if strings.HasPrefix(a.Key, "dyn:") {
-						r.Check("runAction#draws-captured-before", d.Pos(), dominates(d, a.Instr) && p.expr(deferArg) == "$t.draws", "the draw counter is captured before the action runs", "the draw counter compared later is not captured before the action ("+p.expr(deferArg)+")")
+						okCap := len(captures) > 0
+						for _, c := range captures {
+							if c != "$t.draws" && c != "invoke:bitStream.drawn($t.s)" {
+								okCap = false
+							}
+						}
+						r.Check("runAction#captured-before", d.Pos(), dominates(d, a.Instr) && okCap, "draw counter / stream position are captured before the action runs ("+strings.Join(captures, ", ")+")", "the values compared later are not the draw counter / stream position captured before the action ("+strings.Join(captures, ", ")+")")
 					}
 				}
 			}
@@ -385,8 +393,39 @@ func ruleC08R3(r *Run) {
 			switch p.expr(st.Addr) {
 			case "^skipped":
 				n++
-				okV := p.expr(st.Val) == "($t.draws == $draws)" && holdsPrefix(p.facts(st), "assert<invalidData>(builtin:recover()),ok#1", "true")
-				r.Check("runAction#skipped", st.Pos(), okV, "skipped = (no draw happened since the action started), only on the invalidData edge", "skipped is set to "+p.expr(st.Val)+" under "+factsStr(p.facts(st))+": an action that drew values can be treated as never started (or vice versa)")
+				// the value is a conjunction of "counter unchanged since the action started" comparisons
+				nCmp, okLeaves := 0, true
+				seen := map[ssa.Value]bool{}
+				var walk func(v ssa.Value, d int)
+				walk = func(v ssa.Value, d int) {
+					if v == nil || seen[v] || d > 6 {
+						return
+					}
+					seen[v] = true
+					v = p.resolve(v)
+					switch x := v.(type) {
+					case *ssa.Phi:
+						for _, e := range x.Edges {
+							walk(e, d+1)
+						}
+					case *ssa.Const:
+						if bv, isB := constBool(x); !isB || bv {
+							okLeaves = false // a constant true edge would make skipped unconditional
+						}
+					case *ssa.BinOp:
+						ex := p.expr(x)
+						if ex == "($t.draws == $draws)" || ex == "(invoke:bitStream.drawn($t.s) == $drawn)" {
+							nCmp++
+						} else {
+							okLeaves = false
+						}
+					default:
+						okLeaves = false
+					}
+				}
+				walk(st.Val, 0)
+				okV := nCmp >= 1 && okLeaves && holdsPrefix(p.facts(st), "assert<invalidData>(builtin:recover()),ok#1", "true")
+				r.Check("runAction#skipped", st.Pos(), okV, "skipped = (nothing drawn since the action started), only on the invalidData edge", "skipped is set to "+p.expr(st.Val)+" under "+factsStr(p.facts(st))+": an action that drew values can be treated as never started (or vice versa)")
 			case "^invalid":
 				b2, isC := constBool(p.resolve(st.Val))
 				r.Check("runAction#invalid", st.Pos(), isC && b2 && holdsPrefix(p.facts(st), "assert<invalidData>(builtin:recover()),ok#1", "true"), "invalid is set only for an invalidData panic", "invalid is set outside the invalidData edge")
